@@ -14,4 +14,5 @@ LEVEL_NOTE = "necessary conditions only; per-interleaving bookkeeping is not dec
 def run(ctx):
     from . import guardvocab
     guardvocab.G0(ctx, effects={'terminate', 'unpark', 'wake', 'schedule', 'block'})
+    guardvocab.G1(ctx, effects={'terminate', 'unpark', 'wake', 'schedule', 'block'})
     g_state.run_all(ctx, ["S1", "S2", "S3", "S4", "S5", "S5b", "S6", "S7", "S8", "S9", "D1", "D2"])
